@@ -35,6 +35,39 @@ func runC03Once(t *testing.T, p Plan, src kernel.Source) (Result, c03Out) {
 		}
 		e.next = make([]int, len(e.conns))
 		e.cur = make([]*HistOp, len(e.conns))
+		// sequential prelude (part of the history): commands on a connection of their own and
+		// L1 evictions, to start the concurrent phase from a state such as "in L2 only"
+		if len(p.Steps) > 0 {
+			pre := map[string]*kernel.ClientConn{}
+			for _, st := range p.Steps {
+				if st.Evict != nil {
+					for _, k := range st.Evict {
+						d.L1.Fake.Store.Evict(k)
+					}
+					continue
+				}
+				if st.Op == nil {
+					continue
+				}
+				port := "main"
+				if st.Conn == 1 && p.Cfg.Shape == "l1l2batch" {
+					port = "batch"
+				}
+				pc := pre[port]
+				if pc == nil {
+					pc = w.Connect(port)
+					w.Settle()
+					pre[port] = pc
+				}
+				h := &HistOp{Conn: len(e.conns) + 1, Op: *st.Op, Call: e.tick()}
+				w.Send(pc, wire.EncodeBinary(*st.Op))
+				h.Reply = append([]byte(nil), pc.Unread()...)
+				pc.Consume(len(h.Reply))
+				h.Obs = decodeReply("bin", *st.Op, h.Reply, false)
+				h.Ret = e.tick()
+				e.hist = append(e.hist, h)
+			}
+		}
 		w.SegMode = p.Seg
 		ok, why := e.run()
 		if !ok {
@@ -84,6 +117,11 @@ func runC03Once(t *testing.T, p Plan, src kernel.Source) (Result, c03Out) {
 					res.V = &Violation{Prop: p.Prop, Rule: "l1_differs_l2", Step: len(e.hist), Class: "l1_differs_l2", Msg: fmt.Sprintf("when all commands had completed L1 held %q = %s flags %d, L2 held %s flags %d; history: %s", k, short(a.Value), a.Flags, short(b.Value), b.Flags, describeHist(e.hist))}
 					return
 				}
+				// ... nor one that outlives L2's (one second of slack for the second boundary)
+				if (a.Deadline == 0 && b.Deadline != 0) || (a.Deadline != 0 && b.Deadline != 0 && a.Deadline > b.Deadline+1) {
+					res.V = &Violation{Prop: p.Prop, Rule: "l1_outlives_l2", Step: len(e.hist), Class: "l1_outlives_l2", Msg: fmt.Sprintf("when all commands had completed L1 held %q until %s, L2 only until %s: once L2's entry has expired L1 differs from L2; history: %s", k, deadlineStr(a.Deadline, w.Now()), deadlineStr(b.Deadline, w.Now()), describeHist(e.hist))}
+					return
+				}
 			}
 		}
 		// reach probes from the lock log
@@ -101,6 +139,13 @@ func runC03Once(t *testing.T, p Plan, src kernel.Source) (Result, c03Out) {
 		}
 	})
 	return res, out
+}
+
+func deadlineStr(d, now int64) string {
+	if d == 0 {
+		return "forever"
+	}
+	return fmt.Sprintf("now%+ds", d-now)
 }
 
 func sortedKeys(m map[string]bool) []string {
@@ -202,11 +247,16 @@ func (g *gen) concOp(proto string, keys []string, opq *uint32) wire.Op {
 		op.Kind = k
 		op.Data = g.value(pick(g, []int{3, 5, 9}))
 		op.Flags = uint32(g.n(4))
+		op.TTL = pick(g, []uint32{0, 0, 0, 100, 2000})
 	case "append", "prepend":
 		op.Kind = k
 		op.Data = g.value(pick(g, []int{3, 5}))
 	case "delete", "touch", "gat":
 		op.Kind = k
+		if k != "delete" {
+			// lifetimes that neither run out during a run nor count as absolute
+			op.TTL = pick(g, []uint32{0, 50, 700, 3000})
+		}
 	case "get":
 		op.Kind = "get"
 		op.Keys = []string{op.Key}
@@ -249,6 +299,17 @@ func genC03Plan(g *gen, seed uint64, nconn, maxOps int) Plan {
 		p.Progs = append(p.Progs, prog)
 	}
 	p.X = map[string]int64{"sticky": int64(g.n(2))}
+	// a third of the two-tier programs start from keys that are in L2 only (stored, then
+	// evicted from L1), with a lifetime: reads then back-fill L1 while others change it
+	if c.Shape != "l1only" && g.p(1, 3) {
+		for _, k := range keys {
+			if g.p(2, 3) {
+				*(&opq) += 10
+				op := wire.Op{Kind: "set", Key: k, Data: g.value(4), Flags: uint32(g.n(4)), TTL: pick(g, []uint32{0, 1000, 5000}), Opaque: opq}
+				p.Steps = append(p.Steps, Step{Op: &op}, Step{Evict: []string{k}})
+			}
+		}
+	}
 	return p
 }
 
@@ -288,6 +349,30 @@ func enumC03(tier string) []Plan {
 		}
 		out = append(out, p)
 	}
+	// lifetime family: the key is in L2 only, with a long lifetime; one connection reads it
+	// (and back-fills L1 with the lifetime it saw) while another one shortens the lifetime
+	id := 0
+	for _, mr := range []bool{true, false} {
+		for _, other := range []wire.Op{
+			{Kind: "gat", Key: "a", TTL: 50, Opaque: 210},
+			{Kind: "touch", Key: "a", TTL: 50, Opaque: 220},
+			{Kind: "set", Key: "a", Data: []byte("<9>N9"), TTL: 50, Opaque: 230},
+		} {
+			for _, gabs := range []bool{true, false} {
+				id++
+				if tier != "thorough" && id%2 == 0 {
+					continue
+				}
+				set := wire.Op{Kind: "set", Key: "a", Data: []byte("<8>O8"), Flags: 1, TTL: 4000, Opaque: 100}
+				p := Plan{Prop: "C03", Seed: uint64(0xC03800 + id), Mode: "dfs", X: map[string]int64{"dfs_cap": int64(cap)},
+					Cfg:   stack.Cfg{Shape: "l1l2", L1: "std", L2: "std", GetEAbsolute: gabs, Locked: true, MultiReader: mr, Concurrency: 0},
+					Conns: []ConnSpec{{Port: "main", Proto: "bin"}, {Port: "main", Proto: "bin"}},
+					Steps: []Step{{Op: &set}, {Evict: []string{"a"}}},
+					Progs: [][]wire.Op{{{Kind: "get", Keys: []string{"a"}, Quiets: []bool{false}, Opaque: 200}}, {other}}}
+				out = append(out, p)
+			}
+		}
+	}
 	return out
 }
 
@@ -318,7 +403,7 @@ func init() {
 			}
 			return false
 		},
-		Rule:      "client programs of 2-3 connections x 1-3 commands over 1-2 keys (plus, in a fifth of the runs, 3-5 connections x up to 5 commands), every command kind, connections split between main and batch port sharing one lock set, single- and multi-reader, concurrency exponent 0-2, with unique written values. All requests are available at once; the kernel chooses among lock grants (every Lock/RLock of package orcas parks), individual backend requests, reply segments and client sends, uniformly or depth-first-sticky. Enumerated part: 2-connection x 1-command programs on one key explored by depth-first search over the whole choice tree up to a cap (probes dfs_programs_exhausted / dfs_programs_capped say how many trees were completed). Oracle: porcupine linearizability per key against the map model on histories stamped with a kernel event counter, final reads by a fresh client, and L1 subset-of L2 at the end. Non-trivial = two connections address a common key; distinct = distinct plan hash",
+		Rule:      "client programs of 2-3 connections x 1-3 commands over 1-2 keys (plus, in a fifth of the runs, 3-5 connections x up to 5 commands), every command kind, connections split between main and batch port sharing one lock set, single- and multi-reader, concurrency exponent 0-2, with unique written values. All requests are available at once; the kernel chooses among lock grants (every Lock/RLock of package orcas parks), individual backend requests, reply segments and client sends, uniformly or depth-first-sticky. Enumerated part: 2-connection x 1-command programs on one key explored by depth-first search over the whole choice tree up to a cap (probes dfs_programs_exhausted / dfs_programs_capped say how many trees were completed). Oracle: porcupine linearizability per key against the map model on histories stamped with a kernel event counter, final reads by a fresh client, and at the end every L1 entry is in L2 with the same value and flags and does not outlive it. Commands carry lifetimes (0 or 50-5000 s, never running out during a run); a third of the two-tier programs, and an enumerated family (get vs gat/touch/set with a shorter lifetime, both lock modes), start from keys that a sequential prelude stored and evicted from L1. Non-trivial = two connections address a common key; distinct = distinct plan hash",
 		Real:      realFullStack,
 		Stub:      append(append([]string{}, stubFullStack...), "key locks: channel-based shadow of sync.Mutex/RWMutex whose grants are kernel events"),
 		Assume:    []string{"porcupine v1.3.0 decides linearizability of the recorded histories; Unknown (timeout) is counted, never reported"},
